@@ -4,10 +4,14 @@
          must-executed matching mutation of the hash part (and vice versa) on the same path.
   C07.M  no outside writer: `map` and `keys` are private and no method hands out mutable access to one half only.
 
+  C07.B  (= C12.B, shared) the hash part's removal keeps every other key reachable: back-shift loop decided by exhaustive
+         case analysis (see cao/backshift.py).
+  C07.H  (= C12.H, shared) one home-slot function in the hash part.
+
 Ordering, append's key choice and aliasing semantics are behavioural and NOT claimed.
 """
 from cao.facts import AnchorMissing, hir_walk, hir_callee, hir_strip, hir_local_id, short
-from cao.rules import Rule, ok, bad, undecided, note
+from cao.rules import Rule, ok, bad, undecided, note, shared
 from cao import hirutil as hu
 
 EXPLANATION = (
@@ -21,6 +25,8 @@ EXPLANATION = (
     "does not decide ordering or aliasing semantics."
 )
 ASSUMPTIONS = ["CaoHashMap is a faithful map (C12)", "Vec operations behave as documented"]
+
+import rules.c12 as _c12  # noqa: E402
 
 TABLE = "vm::runtime::cao_lang_table::CaoLangTable"
 KEYS_ADD = ("push", "insert", "extend", "extend_from_slice", "append")
@@ -168,4 +174,6 @@ def rule_m(F):
 RULES = [
     Rule("C07.S", rule_s, 4, "map and keys change together in every mutator"),
     Rule("C07.M", rule_m, 2, "no outside writer of one half"),
+    Rule("C07.B", shared(_c12.rule_b, "C12.B", "C07.B"), 4, "removal from the hash part keeps the other keys reachable (shared with C12)"),
+    Rule("C07.H", shared(_c12.rule_h, "C12.H", "C07.H"), 1, "one home-slot function in the hash part (shared with C12)"),
 ]
